@@ -285,6 +285,8 @@ def run(tier):
                         found = True
                         chk.violation({"what": "HEAD carries a body", "position": label, "payload": p}, tag="head-body")
                     continue
+                if label.split(":")[1].startswith("html-doc"):
+                    continue   # the site's own HTML document, sent as it is: only the header block above is the server's
                 if ctype.startswith((b"text/html", b"text/vnd.wap.wml")):
                     hs, is_ = V.html_skeleton(hv["body"]), V.html_skeleton(iv["body"])
                     if hs != is_:
